@@ -138,3 +138,27 @@ Proof.
   split; [apply (bool_decide_eq_false_1 (ind_sound _ _)); by vm_compute|].
   apply (bool_decide_eq_false_1 (CacheCoherent _)). by vm_compute.
 Qed.
+
+(* the history of seeded mutation C13-6, in the model: a module is cached, edited behind rope's back
+   (validate), deleted (validate: its watch entry stays with indicator None), re-created and asked for
+   BEFORE the next validate, edited again, validate *)
+Definition wit4 : state :=
+  run (init (list_to_map [([1%N], File (Content 1 true [] 6) 0)]) (code_cfg true))
+      [OQuery (QLoad [1%N]); OExternal [] [XWrite [1%N] (Content 2 true [] 9) false]; OExternal [] [XRemove [1%N]]].
+Definition wit4_ps : list pstep :=
+  [PX (XCreate [1%N] false); PX (XWrite [1%N] (Content 3 true [] 7) false); PQ (QLoad [1%N]);
+   PX (XWrite [1%N] (Content 4 true [] 12) false)].
+
+Lemma pending_example :
+  Coherent wit4 /\ watched wit4 !! [1%N] = Some None /\ pend_sound wit4 wit4_ps
+  /\ is_Some (mods (foldl pend_step wit4 wit4_ps) !! [1%N])
+  /\ ~ CacheCoherent (foldl pend_step wit4 wit4_ps)
+  /\ Coherent (validate (foldl pend_step wit4 wit4_ps))
+  /\ (run_query (validate (foldl pend_step wit4 wit4_ps)) (QLoad [1%N])).2
+     = ALoad (Some (Some (Content 4 true [] 12))).
+Proof.
+  split; [apply (bool_decide_unpack _); by vm_compute|]. split; [by vm_compute|].
+  split; [apply pend_sound_b_spec; by vm_compute|]. split; [apply (bool_decide_unpack _); by vm_compute|].
+  split; [apply (bool_decide_eq_false_1 (CacheCoherent _)); by vm_compute|].
+  split; [apply (bool_decide_unpack _); by vm_compute|]. by vm_compute.
+Qed.
